@@ -5,6 +5,7 @@ import time
 import traceback
 
 from vf import diff
+from vf.gen import defassign
 from vf.gen import grammar
 
 MODES = ['to_graph', 'to_graph', 'to_graph_nonrec', 'convert', 'convert_nonrec', 'via_call']
@@ -117,7 +118,7 @@ def diff_case(src, inputs, mode, feats, fname='f', keep_modules=False):
       diff.unload(mc)
 
 
-def reduce_source(src, still_fails, budget_s=45):
+def reduce_source(src, still_fails, budget_s=45, keep_defassign=False):
   """Delta debugging by deleting a line together with its indented block, or
   replacing it by `pass`, while still_fails(candidate) holds."""
   pre = grammar.PREAMBLE
@@ -147,6 +148,8 @@ def reduce_source(src, still_fails, budget_s=45):
         try:
           compile(text, 'cand', 'exec')
         except SyntaxError:
+          continue
+        if keep_defassign and defassign.unbound_reads('\n'.join(cand)):
           continue
         try:
           ok = still_fails(text)
